@@ -621,6 +621,7 @@ class Simulation:
 
         for entity in self.tax_benefit_system.group_entities:
             population = self.populations[entity.key].clone(new)
+            population.members = new.persons
             new.populations[entity.key] = population
             setattr(
                 new,
